@@ -112,7 +112,7 @@ def run_neox(rng, res, idx, tier):
 
 
 def plan(tier, seed):
-    n = tier_value(tier, 320, 5000)
+    n = tier_value(tier, 320, 10000)
     shards = tier_value(tier, 10, 14)
     per = n // shards
     return [dict(first=i * per, count=per, budget_s=tier_value(tier, 50, 560)) for i in range(shards)]
